@@ -42,6 +42,14 @@ func outDir() string    { return envOr("VERIF_OUT", filepath.Join(verifRoot(), "
 func tier() string      { return envOr("VERIF_TIER", "quick") }
 func shard() int        { n, _ := strconv.Atoi(envOr("VERIF_SHARD", "0")); return n }
 
+// workDir is where the harness puts the files and directories of its cases ("" = the system's
+// temporary directory).  It is NOT derived from TMPDIR: in the ambient pass (DESIGN.md section 0)
+// TMPDIR points at another file system, which is part of what that pass is about.
+func workDir() string { return os.Getenv("VERIF_WORK") }
+
+// ambient reports whether this process runs in the second ambient environment.
+func ambient() bool { return os.Getenv("VERIF_AMBIENT") != "" }
+
 // seed returns the rapid seed for this process: a pure function of VERIF_SEED
 // and the shard number; 0 (rapid: "random") is never produced.
 func seed() uint64 {
@@ -264,6 +272,11 @@ type Spec[T any] struct {
 	// while that finding has status "known": the case is then skipped and
 	// counted, so the search continues past a recorded defect.
 	Exclude func(c T) string
+	// NoShrink: the cases of this spec are judged against what the PROCESS has seen before (long
+	// histories).  Shrinking would judge candidates in a process that earlier candidates have
+	// already marked, and report a small case that does not fail on its own: the first failing
+	// case is saved as it is and the process ends.
+	NoShrink bool
 
 	inflight *os.File
 	testName string
@@ -323,7 +336,7 @@ func (s *Spec[T]) safeCheck(c T, r *Recorder) (err error) {
 // another spinning goroutine, and one that allocates as it spins gets the process killed before
 // it can report): the case is saved, the verdict printed and the process ends at once.
 func (s *Spec[T]) exitOnHang(err error, saved string, r *Recorder, start time.Time) {
-	if !strings.Contains(err.Error(), "(hang)") {
+	if !s.NoShrink && !strings.Contains(err.Error(), "(hang)") {
 		return
 	}
 	fmt.Printf("%s/%s violated: %v (case saved to %s)\n", s.Prop, s.Name, err, saved)
